@@ -789,6 +789,116 @@ pub mod xo {
     }
 }
 
+/// hand-written member: raw vtable entries of methods that use integer results, driven the way a C caller does (one output
+/// slot re-used over several calls): Ok fills the slot once, Err leaves every byte of it alone - for a plain payload, a payload
+/// with a destructor and a wrapped associated-type payload (a CGlue object)
+pub mod xi {
+    #![allow(unused_variables, unused_mut, clippy::all)]
+    use h_objbase::support::*;
+    use cglue::*;
+    use cglue::trait_group::{GetContainer, GetVtblBase};
+    use ::core::mem::MaybeUninit;
+    #[cglue_trait]
+    pub trait InnerI {
+        fn iv(&self) -> u64;
+    }
+    pub struct KidI {
+        pub dc: instr::Dc,
+    }
+    impl InnerI for KidI {
+        fn iv(&self) -> u64 {
+            self.dc.val
+        }
+    }
+    #[cglue_trait]
+    #[int_result]
+    pub trait Fact {
+        #[wrap_with_obj(InnerI)]
+        type Out: InnerI + 'static;
+        fn make(&self, id: u64) -> Result<Self::Out, ()>;
+        fn count(&self, id: u64) -> Result<u64, ()>;
+        fn mk_dc(&self, id: u64) -> Result<instr::Dc, ()>;
+    }
+    pub struct FactImp;
+    impl Fact for FactImp {
+        type Out = KidI;
+        fn make(&self, id: u64) -> Result<KidI, ()> {
+            if id < 10 { Ok(KidI { dc: instr::Dc::new(id) }) } else { Err(()) }
+        }
+        fn count(&self, id: u64) -> Result<u64, ()> {
+            if id < 10 { Ok(id + 1) } else { Err(()) }
+        }
+        fn mk_dc(&self, id: u64) -> Result<instr::Dc, ()> {
+            if id < 10 { Ok(instr::Dc::new(id)) } else { Err(()) }
+        }
+    }
+    fn poison<T>(s: &mut MaybeUninit<T>) {
+        unsafe { ::core::ptr::write_bytes(s.as_mut_ptr() as *mut u8, 0xA5, ::core::mem::size_of::<T>()) }
+    }
+    fn bytes<T>(s: &MaybeUninit<T>) -> Vec<u8> {
+        unsafe { ::core::slice::from_raw_parts(s.as_ptr() as *const u8, ::core::mem::size_of::<T>()) }.to_vec()
+    }
+    pub const DESC: &str = "int_result entries called raw with a re-used output slot: plain, droppable and wrapped-object payloads (Err, Ok, Err on one slot)";
+    macro_rules! drive {
+        ($what:expr, $f:expr, $cont:expr, $slot:expr) => {{
+            poison(&mut $slot);
+            let fresh = bytes(&$slot);
+            let c = unsafe { $f($cont, 35, &mut $slot) };
+            if c == 0 { return Err(("intres:err_code_zero".into(), format!("{}: the Err path returned code 0", $what))); }
+            if bytes(&$slot) != fresh { return Err(("intres:slot_written_on_err".into(), format!("{}: a failed call wrote to the caller's (never initialised) output slot", $what))); }
+            let c = unsafe { $f($cont, 7, &mut $slot) };
+            if c != 0 { return Err(("intres:ok_code_nonzero".into(), format!("{}: the Ok path returned code {}", $what, c))); }
+            let filled = bytes(&$slot);
+            let c = unsafe { $f($cont, 36, &mut $slot) };
+            if c == 0 { return Err(("intres:err_code_zero".into(), format!("{}: the Err path returned code 0", $what))); }
+            if bytes(&$slot) != filled { return Err(("intres:slot_written_on_err".into(), format!("{}: a failed call modified the value a previous successful call left in the caller's output slot", $what))); }
+        }};
+    }
+    pub fn raw_check() -> Result<u64, (String, String)> {
+        let drops = instr::DropScope::new();
+        let obj = trait_obj!(FactImp as Fact);
+        // the produced handles are dropped before `obj`; the reborrow only detaches the lifetimes for the raw calls
+        let objr: &'static FactBox<'static> = unsafe { &*(&obj as *const _ as *const FactBox<'static>) };
+        let cont = objr.ccont_ref();
+        let vt = objr.get_vtbl_base();
+        let mut acc = 0u64;
+        {
+            let f = vt.count();
+            let mut slot = MaybeUninit::<u64>::uninit();
+            drive!("plain u64 payload", f, cont, slot);
+            let v = unsafe { slot.assume_init() };
+            if v != 8 { return Err(("intres:ok_value".into(), format!("plain payload: slot holds {} after Ok(8)", v))); }
+            acc ^= v;
+        }
+        {
+            let f = vt.mk_dc();
+            let mut slot = MaybeUninit::<instr::Dc>::uninit();
+            drive!("payload with a destructor", f, cont, slot);
+            let v = unsafe { slot.assume_init() };
+            let id = v.id;
+            if v.val != 7 { return Err(("intres:ok_value".into(), format!("droppable payload: slot holds {} after Ok(7)", v.val))); }
+            if drops.count(id) != 0 { return Err(("intres:ok_value_dropped".into(), "droppable payload: the success value was dropped although the caller owns it".into())); }
+            drop(v);
+            if drops.count(id) != 1 { return Err(("intres:ok_value_drops".into(), format!("droppable payload dropped {} times", drops.count(id)))); }
+            acc ^= 7;
+        }
+        {
+            let f = vt.make();
+            let mut slot = MaybeUninit::uninit();
+            drive!("wrapped associated-type payload (CGlue object)", f, cont, slot);
+            let h = unsafe { slot.assume_init() };
+            if h.iv() != 7 { return Err(("intres:ok_value".into(), format!("wrapped payload: the object in the slot answers {} instead of 7", h.iv()))); }
+            drop(h);
+            let bad = drops.not_equal(1);
+            if !bad.is_empty() { return Err(("intres:ok_value_drops".into(), format!("payloads {:?} were not dropped exactly once", bad))); }
+            acc ^= 70;
+        }
+        if instr::drops::bogus_drops() != 0 { return Err(("int:slot_read_on_err".into(), "a value was fabricated from an untouched slot and dropped".into())); }
+        drop(obj);
+        Ok(digest(&acc))
+    }
+}
+
 /// hand-written structure member: several temporary-storage slots of mixed receiver kind; the temporary storage keeps the
 /// methods' declaration order (a `&mut self` method declared before two `&self` methods)
 pub mod xo2 {
@@ -917,6 +1027,7 @@ def main():
         if k == 2:
             reg.append("        (900002, xo::DESC, xo::raw_check as fn() -> Result<u64, (String, String)>),")
             reg.append("        (900003, xo2::DESC, xo2::raw_check as fn() -> Result<u64, (String, String)>),")
+            reg.append("        (900004, xi::DESC, xi::raw_check as fn() -> Result<u64, (String, String)>),")
             chunks.append(HAND_O)
         reg.append("    ]")
         reg.append("}")
